@@ -82,6 +82,9 @@ def generate(rng, tier):
 
 
 def shrink(line, still_bad):
+    # the model-free families carry their expectation in the history itself: not shrunk
+    if stopforget.is_sf(line) or mfree.is_mf(line):
+        return line
     return vlib.shrink_history(line, still_bad)
 
 
@@ -90,6 +93,8 @@ def known_class(line, impl, mon):
     # a later browse of the subtype); any other leftover is a new violation
     if stopforget.is_sf(line) and impl.startswith("SF leftover-subptr"):
         return "C13-subtype-ptr-survives-stop"
+    if stopforget.is_sf(line) and impl.startswith("SF leftover-addr-srv-expired"):
+        return "C13-address-survives-stop-after-srv-expiry"
     return None
 
 
